@@ -90,6 +90,9 @@ type State struct {
 	writtenAll bool
 	wvBad      []string
 	heapBound  map[string]string // heap array -> allocation counter bounding every reference stored in it ("" = current)
+	allKept    map[string]bool   // arrays preserved by every havoc-all so far on this path (nil = no havoc-all yet)
+	localRefs  []string          // references of stack-allocated (non-escaping) locals of the frames on this path
+	preHavoc   map[string]string // heap array -> version just before the last havoc-all (locals keep their contents)
 }
 
 func (st *State) clone() *State {
@@ -119,6 +122,17 @@ func (st *State) clone() *State {
 	n.heapBound = make(map[string]string, len(st.heapBound))
 	for k, v := range st.heapBound {
 		n.heapBound[k] = v
+	}
+	if st.allKept != nil {
+		n.allKept = make(map[string]bool, len(st.allKept))
+		for k, v := range st.allKept {
+			n.allKept[k] = v
+		}
+	}
+	n.localRefs = st.localRefs[:len(st.localRefs):len(st.localRefs)]
+	n.preHavoc = make(map[string]string, len(st.preHavoc))
+	for k, v := range st.preHavoc {
+		n.preHavoc[k] = v
 	}
 	return n
 }
@@ -198,6 +212,8 @@ type Exec struct {
 	dryBody map[*ssa.BasicBlock]bool
 	dryAcc map[string]bool
 	dryAll bool
+	dryKept map[string]bool
+	dryKeptSet bool
 	dryGhost bool
 	loopWrites map[*ssa.BasicBlock]*writeSet
 	fnMods map[string]*modGroup
@@ -205,14 +221,49 @@ type Exec struct {
 	collectTyping bool
 	pendingTyping []Val
 	pendingBound []string
+	pendingIdx   []string
+	refArrs      map[string]bool
 	curFrame *Frame
+	nExitCovers int
+	modExcept []string
 	curCallee string
 	inLoopHavoc bool
+}
+
+func isRefLeaf(l leaf) bool {
+	if l.role == "ref" || l.role == "pay" {
+		return true
+	}
+	if l.typ == nil {
+		return false
+	}
+	switch u := l.typ.Underlying().(type) {
+	case *types.Pointer, *types.Map, *types.Chan:
+		return true
+	case *types.Basic:
+		return u.Kind() == types.UnsafePointer
+	case *types.Array:
+		switch u.Elem().Underlying().(type) {
+		case *types.Pointer, *types.Map, *types.Chan:
+			return true
+		}
+	}
+	return false
+}
+
+func (x *Exec) markRef(name string, l leaf) {
+	if isRefLeaf(l) {
+		if x.refArrs == nil {
+			x.refArrs = map[string]bool{}
+		}
+		x.refArrs[name] = true
+	}
 }
 
 type writeSet struct {
 	names map[string]bool
 	all   bool
+	kept  map[string]bool // with all: arrays that every havoc-all in the loop preserves
 }
 
 func (x *Exec) noteArr(name, sort string) {
@@ -579,8 +630,28 @@ func (x *Exec) heapArr(st *State, name, sort string) string {
 	x.decls.Const(base, sort)
 	st.heap[name] = base
 	x.noteArr(name, sort)
+	if st.gen == 0 && x.refArrs[name] && x.mode == ModeInt {
+		// entry heap: objects that exist at entry only hold references to objects that exist at entry
+		switch {
+		case sort == "(Array Int Int)":
+			x.ensurePre(fmt.Sprintf("(forall ((r Int)) (! (=> (<= r alloc!0) (<= (select %s r) alloc!0)) :pattern ((select %s r))))", base, base))
+		case sort == "(Array Int (Array Int Int))":
+			x.ensurePre(fmt.Sprintf("(forall ((r Int) (i Int)) (! (=> (<= r alloc!0) (<= (select (select %s r) i) alloc!0)) :pattern ((select (select %s r) i))))", base, base))
+		}
+	}
 	if ax := x.nilMapAxiom(name, sort, base); ax != "" {
-		x.ensurePre(ax)
+		if st.gen == 0 {
+			x.ensurePre(ax)
+		} else {
+			st.assume(ax)
+		}
+	}
+	// a callee that "modifies *" cannot reach the caller's stack-allocated locals
+	if old, ok := st.preHavoc[name]; ok && strings.HasPrefix(sort, "(Array Int ") {
+		for _, r := range st.localRefs {
+			st.assume(eq(sel(base, r), sel(old, r)))
+		}
+		delete(st.preHavoc, name)
 	}
 	return base
 }
@@ -802,13 +873,18 @@ func (x *Exec) load(st *State, a *Addr) Val {
 	for i, l := range ls {
 		name := a.Prefix + l.suffix
 		hs := x.leafHeapSort(a, l)
+		x.markRef(name, l)
 		arr := x.heapArr(st, name, hs)
 		terms[i] = x.readAt(arr, a, l)
 	}
 	v := x.unflatten(a.T, terms)
 	// name loaded values to keep terms small, and add typing facts
 	v = x.nameVal(st, v, "ld")
-	x.assumeTypingBound(st, v, x.refBound(st, a.Prefix+ls0suffix(ls)))
+	idx := ""
+	if len(a.Idx) > 0 {
+		idx = a.Idx[0]
+	}
+	x.assumeTypingBound(st, v, x.refBound(st, a.Prefix+ls0suffix(ls)), idx)
 	return v
 }
 
@@ -819,12 +895,46 @@ func ls0suffix(ls []leaf) string {
 	return ls[0].suffix
 }
 
-// assumeTypingBound is assumeTyping with a tighter allocation bound for the references inside v.
-func (x *Exec) assumeTypingBound(st *State, v Val, bound string) {
-	save := st.alloc
-	st.alloc = bound
+// assumeTypingBound: besides the plain typing facts, references read from an object that existed when the array version
+// was created (index <= bound) are themselves <= bound. (Objects allocated later - e.g. by a callee whose writes to fresh
+// objects need not be declared - may hold newer references.)
+func (x *Exec) assumeTypingBound(st *State, v Val, bound string, idx string) {
 	x.assumeTyping(st, v)
-	st.alloc = save
+	if bound == st.alloc || idx == "" {
+		return
+	}
+	for _, t := range x.refTerms(v) {
+		st.assume(implies(app("<=", idx, bound), app("<=", t, bound)))
+	}
+}
+
+// refTerms lists the reference-valued component terms of a value.
+func (x *Exec) refTerms(v Val) []string {
+	switch v.K {
+	case KScalar:
+		if v.T == nil {
+			return nil
+		}
+		switch u := v.T.Underlying().(type) {
+		case *types.Pointer, *types.Map, *types.Chan:
+			return []string{v.S}
+		case *types.Basic:
+			if u.Kind() == types.UnsafePointer {
+				return []string{v.S}
+			}
+		}
+	case KSlice:
+		return []string{v.Ref}
+	case KIface:
+		return []string{v.Pay}
+	case KStruct, KTuple:
+		var out []string
+		for _, f := range v.Fs {
+			out = append(out, x.refTerms(f)...)
+		}
+		return out
+	}
+	return nil
 }
 
 func (x *Exec) leafHeapSort(a *Addr, l leaf) string {
@@ -1002,6 +1112,7 @@ func (x *Exec) mapValArr(st *State, t types.Type, l leaf) (name, sort, cur strin
 	prefix, ks, _ := x.mapInfo(t)
 	name = prefix + ".val" + l.suffix
 	sort = "(Array Int (Array " + ks + " " + l.sort + "))"
+	x.markRef(name, l)
 	return name, sort, x.heapArr(st, name, sort)
 }
 
@@ -1041,7 +1152,12 @@ func (x *Exec) mapLookup(st *State, m Val, k string) (Val, string) {
 	}
 	v := x.unflatten(raw.T, out)
 	v = x.nameVal(st, v, "lk")
-	x.assumeTyping(st, v)
+	prefix, _, vls := x.mapInfo(m.T)
+	if len(vls) > 0 {
+		x.assumeTypingBound(st, v, x.refBound(st, prefix+".val"+vls[0].suffix), m.S)
+	} else {
+		x.assumeTyping(st, v)
+	}
 	return v, has
 }
 
